@@ -140,11 +140,51 @@ def _scalar(ctx, v):
     return isinstance(v, Sym) or (kind_of(v) in ("int", "real", "bool"))
 
 
+_NOATTR = object()
+
+
+def _array_attr(ctx, o, c, name):
+    """attributes of a one-dimensional ndarray of (symbolic) scalars"""
+    if name == "shape":
+        return (len(c.items),)
+    if name == "size":
+        return len(c.items)
+    if name == "ndim":
+        return 1
+    if name == "astype":
+        def astype(cx, a, k, _o=o):
+            items = cx.cell(_o).items
+            t = a[0] if a else k.get("dtype")
+            conv = t if not (isinstance(t, Ext) and t.obj in (float, np.float64)) else None
+            out = [bi_float(cx, [x], {}) if conv is None else cx.call(conv, [x], {}) for x in items]
+            return _mk_array(cx, out)   # a new array (copy), as numpy does by default
+        return SpecFn("ndarray.astype", astype)
+    if name in ("copy", "flatten", "ravel"):
+        return SpecFn("ndarray." + name, lambda cx, a, k, _o=o: _mk_array(cx, list(cx.cell(_o).items)))
+    if name == "tolist":
+        return SpecFn("ndarray.tolist", lambda cx, a, k, _o=o: cx.new_list(list(cx.cell(_o).items)))
+    if name == "dtype":
+        return Ext(np.dtype(float))
+    return _NOATTR
+
+
+@model(np.full_like)
+def m_full_like(ctx, args, kw):
+    c = ops._array_cell(ctx, args[0])
+    if c is None:
+        return NotImplemented
+    fill = args[1]
+    fc = ops._array_cell(ctx, fill)
+    return _mk_array(ctx, list(fc.items) if fc is not None else [fill] * len(c.items))
+
+
 @model(np.abs, np.absolute, _b.abs, np.fabs)
 def m_abs(ctx, args, kw):
     x = args[0]
     if isinstance(x, Sym):
         return mk(z3.If(x.t >= 0, x.t, -x.t), x.k)
+    if ops._array_cell(ctx, x) is not None:
+        return _mk_array(ctx, [m_abs(ctx, [v], {}) if isinstance(v, Sym) else abs(v) for v in ops._array_cell(ctx, x).items])
     if isinstance(x, Ref) and isinstance(ctx.cell(x), HObj):
         return ctx.call(ctx.getattr(x, "__abs__"), [], {})
     return NotImplemented
@@ -396,11 +436,6 @@ def m_all(ctx, args, kw):
     return NotImplemented
 
 
-@model(np.full_like)
-def m_full_like(ctx, args, kw):
-    return NotImplemented
-
-
 # --------------------------------------------------------------------------------------------
 # builtins implemented in the executor
 
@@ -440,7 +475,7 @@ def _isinstance(ctx, v, t):
         if isinstance(v, Ref):
             c = ctx.cell(v)
             if isinstance(c, HList):
-                return issubclass(list, py)
+                return issubclass(np.ndarray if getattr(c, "is_array", False) else list, py)
             if isinstance(c, HDict):
                 return issubclass(dict, py)
             if isinstance(c, HSet):
@@ -866,6 +901,11 @@ def get_attr(ctx, o, name, default=NotImplemented):
                 return ctx.call(BoundMethod(ga, o), [name], {})
             return missing()
         if isinstance(c, HList):
+            if getattr(c, "is_array", False) and c.items is not None:
+                r = _array_attr(ctx, o, c, name)
+                if r is not _NOATTR:
+                    return r
+                return missing()
             if name in LIST_METHODS:
                 return SpecFn("list." + name, lambda cx, a, k, _o=o, _n=name: LIST_METHODS[_n](cx, _o, a, k))
             return missing()
